@@ -40,6 +40,7 @@ type Frame struct {
 	isDeferred bool  // frame runs a deferred function (recover() legal)
 	fuel int
 	initPkg   *ssa.Package
+	mctx      *mergeCtx
 	initStart int
 }
 
@@ -98,6 +99,8 @@ type State struct {
 	seq      map[string]int
 	ghost    map[string]Value
 	wit      []*Witness
+	mergeRet Value
+	silent   bool
 }
 
 type ufApp struct {
